@@ -245,7 +245,9 @@ Definition relativize_z (z : relz) (iri : str) : res :=
     end
   end.
 
-(* Relativizer::relativize BEFORE the fix (the text in the original tree) *)
+(* Relativizer::relativize BEFORE the fix (the text in the original tree).  Not modelled here: the
+   debug assertion of IriRef::new_unchecked, which makes a dev-profile build panic when the
+   produced text is not a syntactically valid IRI reference (e.g. ":/x"). *)
 Fixpoint prefix_loop (l : nat) (iri : str) (sl : list nat) (nb : nat) (k : res) : res :=
   match sl with
   | [] => k
